@@ -32,6 +32,7 @@ import (
 	"github.com/containerd/nri/pkg/log"
 	"github.com/containerd/nri/pkg/net"
 	"github.com/containerd/nri/pkg/net/multiplex"
+	"github.com/containerd/nri/pkg/vhook"
 	"github.com/containerd/ttrpc"
 	"google.golang.org/grpc/codes"
 	"google.golang.org/grpc/status"
@@ -347,6 +348,7 @@ func (p *plugin) close() {
 	}
 
 	p.closed = true
+	vhook.Point("plugin.closed", p.name())
 	p.mux.Close()
 	p.rpcc.Close()
 	p.rpcs.Close()
@@ -488,7 +490,9 @@ func (p *plugin) synchronize(ctx context.Context, pods []*PodSandbox, containers
 		log.Debugf(ctx, "sending sync message, %d/%d, %d/%d (more: %v)",
 			len(req.Pods), len(podsToSend), len(req.Containers), len(ctrsToSend), req.More)
 
+		vhook.Point("syncmsg.send", p.name(), len(req.Pods), len(req.Containers), req.More)
 		rpl, err = p.impl.Synchronize(ctx, req)
+		vhook.Point("syncmsg.result", p.name(), err)
 		if err == nil {
 			if !req.More {
 				break
